@@ -45,7 +45,7 @@ def describe(evline, ex):
                 cfg = " | tree: " + "; ".join(
                     "node%d(parent %d%s): " % (i + 1, n["parent"], (" as " + n["mname"]) if n["mname"] else "") +
                     ", ".join(("%s%s %r%s sel=%s" % ("mount->" if o["t"] == "m" else "h", o.get("child", o.get("id")), o["re"],
-                                                      (" [" + o["meth"]["text"] + "]") if o.get("meth", {}).get("k") == "set" else "", o["sel"]))
+                                                      (" [" + o["meth"]["text"] + "]") if o.get("meth", {}).get("k", "none") != "none" else "", o["sel"]))
                               for o in n["opts"])
                     for i, n in enumerate(c["nodes"]))
             except Exception:
@@ -85,6 +85,9 @@ def run(ctx):
         "pattern family with decidable, unambiguous languages: literal text, (\\d+), (\\w+), (.*), alternation, optional trailing slash, "
         "'rest' = ((?:/.*)?) / (/.*)?; every group is delimited by '/' literals; an ambiguous split makes the spec silent (none occurs)",
         "the regex text given to booster::regex is generated from the logged abstract pattern by the harness (regex_text)",
+        "method filters come from a family given in abstract syntax (plain verbs, (A|B), (?:A|B), unparenthesised A|B ending in a letter, "
+        "P(UT|ATCH)|MOVE, [A-Z]+, GET|POST?, the empty filter, mixed forms); TLC computes the language from the abstract expression, the code "
+        "gets the text; request methods are drawn inside / outside the languages, as the filter text itself, in lower case, empty, with line ends",
         "handlers take std::string parameters (typed url parameters that fail to parse fall through to the next handler by design - not driven)",
         "request strings contain no NUL (DESIGN.md section 6 F10: option::matches passes path.c_str(); API-level only); CR and LF ARE driven: "
         "a word of a language followed by a line end (+ more text) in path-info, script-name, host and method must not match "
@@ -110,7 +113,7 @@ def run(ctx):
         for cfg, inv in (("Route_mut_search.cfg", "MatcherAgrees"), ("Route_mut_reverse.cfg", "FirstMatch"),
                          ("Route_mut_icase.cfg", "FirstMatch"), ("Route_mut_wrongparam.cfg", "MapThenRoute"),
                          ("Route_mut_dollar.cfg", "NoPrefix"), ("Route_mut_approot.cfg", "MapThenRoute"),
-                         ("Route_mut_lastwins.cfg", "PoolFirst")):
+                         ("Route_mut_lastwins.cfg", "PoolFirst"), ("Route_mut_lastchar.cfg", "FirstMatch")):
             ctx.design("Route/Route.tla", cfg, workers=W, timeout=900, deadlock_off=True, extra=X, expect_violation=inv, count=False,
                        note="self-test: seeded fault in the model must violate " + inv)
 
